@@ -919,8 +919,10 @@ def rule_narrow(rep, configs=('avx2', 'avx512')):
                 continue
             nfun += 1
             seeds = []
+            b_of = {}
             for b in fi.fn.order:
                 for ins in fi.fn.blocks[b]:
+                    b_of[id(ins)] = b
                     if ins.op == 'trunc' and ins.ty[0] == 'i' and ins.ty[1] in (8, 16, 32) and ins.x and ins.x[0] == 'i' and ins.x[1] >= 32 and ins.x[1] > ins.ty[1]:
                         src = ins.a[0]
                         if src[0] != 'r':
@@ -944,30 +946,61 @@ def rule_narrow(rep, configs=('avx2', 'avx512')):
             for ins, what in seeds:
                 nsites += 1
                 hit = None
-                todo = [ins.dst]
-                seen = set()
+                # an upper bound on the narrowed value known from the branch conditions that dominate the narrowing
+                # (`if (stride <= K) { int32_t s = stride; ... }`): the slice carries the bound; arithmetic in the narrow type
+                # that may exceed the signed range drops it; a bounded value reaching an address is fine
+                ub0 = None
+                if ins.op == 'trunc' and ins.a[0][0] == 'r':
+                    ub0 = _dominating_upper_bound(fi, b_of[id(ins)], ins.a[0][1])
+                    if ub0 is not None and ub0 >= (1 << (ins.ty[1] - 1)):
+                        ub0 = None
+                todo = [(ins.dst, ub0)]
+                seen = {}
                 while todo and hit is None:
-                    r_ = todo.pop()
-                    if r_ in seen:
+                    r_, ub = todo.pop()
+                    if r_ in seen and (seen[r_] is None or (ub is not None and ub <= seen[r_])):
                         continue
-                    seen.add(r_)
-                    for ub, u in fi.users(r_):
+                    seen[r_] = ub
+                    for ub_, u in fi.users(r_):
                         if u.op == 'getelementptr':
-                            if any(a == ('r', r_) for a in u.a[1:]):
+                            if any(a == ('r', r_) for a in u.a[1:]) and ub is None:
                                 hit = (u, 'an address computation')
                                 break
                         elif u.op == 'call':
                             c = callee_name(u)
-                            if c and ADDRESS_SINKS.match(c):
+                            if c and ADDRESS_SINKS.match(c) and ub is None:
                                 hit = (u, 'a call of %s' % c)
                                 break
                         elif u.op in ('shl', 'lshr', 'ashr'):
                             if u.a[0] == ('r', r_):
-                                todo.append(u.dst)
+                                k = u.a[1][1] if u.a[1][0] == 'i' else None
+                                nb = None
+                                if ub is not None and k is not None:
+                                    nb = (ub << k) if u.op == 'shl' else (ub >> k)
+                                    if u.ty[0] == 'i' and nb >= (1 << (u.ty[1] - 1)):
+                                        nb = None
+                                todo.append((u.dst, nb))
                         elif u.op in ('add', 'sub', 'mul', 'udiv', 'sdiv', 'urem', 'srem', 'and', 'or', 'xor', 'sext', 'zext', 'trunc', 'phi', 'select',
                                       'insertelement', 'shufflevector', 'bitcast', 'freeze'):
-                            if u.dst:
-                                todo.append(u.dst)
+                            if not u.dst:
+                                continue
+                            nb = None
+                            if ub is not None:
+                                other = [a for a in u.a if a != ('r', r_)] if u.op != 'phi' else []
+                                kc = other[0][1] if (len(other) == 1 and other[0][0] == 'i' and isinstance(other[0][1], int)) else None
+                                if u.op in ('sext', 'zext', 'bitcast', 'freeze', 'insertelement', 'shufflevector'):
+                                    nb = ub
+                                elif u.op == 'mul' and kc is not None and 0 <= kc < (1 << 31):
+                                    nb = ub * kc
+                                elif u.op == 'add' and kc is not None and 0 <= kc < (1 << 31):
+                                    nb = ub + kc
+                                elif u.op in ('and', 'urem', 'udiv', 'lshr') and kc is not None:
+                                    nb = ub
+                                elif u.op == 'trunc':
+                                    nb = ub if (u.ty[0] == 'i' and ub < (1 << (u.ty[1] - 1))) else None
+                                if nb is not None and u.ty[0] == 'i' and u.ty[1] <= 32 and nb >= (1 << (u.ty[1] - 1)):
+                                    nb = None       # may leave the signed range of the narrow type
+                            todo.append((u.dst, nb))
                 site = loc(mod, ins, name)
                 tag = 'narrow:%s@%s' % (mod.dem.get(name, name).split('(')[0], site)
                 if hit:
@@ -977,6 +1010,49 @@ def rule_narrow(rep, configs=('avx2', 'avx512')):
     rep.ok('narrow:census', 'R-NARROW', 'src', '%d narrowing sites in %d shape-driven routines inspected' % (nsites, nfun))
     rep.floor('shape-driven routines inspected for narrowing', nfun, 300)
     return nsites
+
+
+def _dominating_upper_bound(fi, blk, reg):
+    """an upper bound on register `reg` that holds in block `blk` because of the conditional branches that dominate it"""
+    dom = fi.dominators()
+    best = None
+    for d in dom.get(blk, ()):
+        if d == blk:
+            continue
+        term = fi.fn.blocks[d][-1] if fi.fn.blocks[d] else None
+        if term is None or term.op != 'br' or not term.a:
+            continue
+        cond = term.a[0]
+        if cond[0] != 'r':
+            continue
+        cd = fi.defs.get(cond[1])
+        if cd is None or cd[1].op != 'icmp':
+            continue
+        ic = cd[1]
+        tsucc, fsucc = term.x[0], term.x[1]
+        on_true = tsucc in dom.get(blk, ()) and fsucc not in dom.get(blk, ())
+        on_false = fsucc in dom.get(blk, ()) and tsucc not in dom.get(blk, ())
+        if not (on_true or on_false):
+            continue
+        a0, a1 = ic.a[0], ic.a[1]
+        pred = ic.x
+        if a0 == ('r', reg) and a1[0] == 'i':
+            c = a1[1]
+        elif a1 == ('r', reg) and a0[0] == 'i':
+            c = a0[1]
+            pred = {'ult': 'ugt', 'ule': 'uge', 'ugt': 'ult', 'uge': 'ule', 'slt': 'sgt', 'sle': 'sge', 'sgt': 'slt', 'sge': 'sle'}.get(pred, pred)
+        else:
+            continue
+        if c >= (1 << 63):
+            continue
+        ub = None
+        if on_true:
+            ub = {'ult': c - 1, 'ule': c, 'slt': c - 1, 'sle': c, 'eq': c}.get(pred)
+        else:
+            ub = {'ugt': c, 'uge': c - 1, 'sgt': c, 'sge': c - 1, 'ne': c}.get(pred)
+        if ub is not None and ub >= 0 and (best is None or ub < best):
+            best = ub
+    return best
 
 
 def _loop_headers(fi):
